@@ -182,7 +182,7 @@ func (r *Run) Finish() int {
 func brief(c Coverage) string {
 	m := map[string]any{}
 	for k, v := range c {
-		if k == "samples" || k == "rule" || k == "explanation" || k == "per_scenario" || k == "per_config" {
+		if k == "samples" || k == "rule" || k == "explanation" || k == "per_scenario" || k == "per_config" || k == "configurations" || k == "searches" || k == "chunk_family_plan" || k == "bfs_per_run" || len(fmt.Sprint(v)) > 300 {
 			continue
 		}
 		m[k] = v
